@@ -236,7 +236,7 @@ class Grid(object):
         # Reads data if bil file is there
         if stream_data is not None:
             stream_data.seek(0)
-            grid.load(stream_data)
+            grid.load(stream_data, byteorder)
 
         # Adds parent meta data
         if len(parent_config) > 0:
@@ -489,7 +489,7 @@ class Grid(object):
 
         return identical
 
-    def load(self, stream_data):
+    def load(self, stream_data, byteorder="="):
         """ Load data from file
 
         Parameters
@@ -497,8 +497,12 @@ class Grid(object):
         stream_data : io.ByteIO or str
             Stream to binary data (only BIL file format at the moment) or
             File path.
+        byteorder : str
+            Byte order of the binary data: "<" (little endian),
+            ">" (big endian) or "=" (native).
         """
-        data = np.fromfile(stream_data, self.dtype)
+        dtype = np.dtype(self.dtype).newbyteorder(byteorder)
+        data = np.fromfile(stream_data, dtype)
 
         nval = self.nrows * self.ncols
         if len(data) != nval:
